@@ -345,10 +345,19 @@ func Run(j *job.Job, s *job.Sink) {
 						}
 					}()
 					ms := yang.NewModules()
-					for _, i := range perm {
+					for k, i := range perm {
 						if err := ms.Parse(files[i].text(), files[i].name+".yang"); err != nil {
 							return
 						}
+						// (the third repetition has a processing run after every load but
+						// the last: what such a run saw of the half-loaded set must not
+						// change what the run on the complete set reports)
+						if rep == 2 && k < len(perm)-1 {
+							ms.Process()
+						}
+					}
+					if rep == 1 {
+						ms.Process() // the second repetition is processed twice
 					}
 					if errs := ms.Process(); len(errs) == 0 {
 						s.Violation(c, j.CaseID(c), "C11.closure", "unreported:"+wantErr, "Process reported no error for a graph with a "+wantErr, cs, nil)
@@ -413,12 +422,57 @@ func Run(j *job.Job, s *job.Sink) {
 					}
 				}()
 				ms := yang.NewModules()
-				for _, i := range perm {
-					if err := ms.Parse(files[i].text(), files[i].name+".yang"); err != nil {
+				// One repetition in six has a module arrive twice: first as an older
+				// revision (with one more identity, derived from its first one), then,
+				// after a processing run has bound everything to that, as the newer
+				// revision that the model describes. All bases and identityrefs must move.
+				var late *mod
+				if rep%6 == 5 {
+					for _, f := range files {
+						if !f.sub && len(f.subs) == 0 {
+							late = f
+							break
+						}
+					}
+				}
+				withRev := func(t, date, extra string) string {
+					t = strings.Replace(t, ";\n", ";\n  revision "+date+";\n", 1)
+					k := strings.LastIndex(t, "}")
+					return t[:k] + extra + t[k:]
+				}
+				for k, i := range perm {
+					txt := files[i].text()
+					if files[i] == late {
+						extra := ""
+						if len(late.ids) > 0 {
+							extra = "  identity ZZOLDONLY { base " + late.ids[0].name + "; }\n"
+						}
+						txt = withRev(txt, "2019-01-01", extra)
+					}
+					if err := ms.Parse(txt, files[i].name+".yang"); err != nil {
 						bad("parse-error", "%v", err)
 						libErr = "parse"
 						return
 					}
+					// every third repetition has a processing run after each load (on a
+					// half-loaded set it reports missing modules and bases, rightly); every
+					// third is processed twice. The run on the complete set is judged.
+					if rep%3 == 2 && k < len(perm)-1 {
+						ms.Process()
+						s.Count("intermediate_process_runs", 1)
+					}
+				}
+				if rep%3 == 1 {
+					ms.Process()
+				}
+				if late != nil {
+					ms.Process()
+					if err := ms.Parse(withRev(late.text(), "2020-02-02", ""), late.name+"@2020-02-02.yang"); err != nil {
+						bad("parse-error", "%v", err)
+						libErr = "parse"
+						return
+					}
+					s.Count("loads_with_a_late_newer_revision", 1)
 				}
 				if errs := ms.Process(); len(errs) > 0 {
 					bad("spurious-error", "%v", errs[0])
@@ -426,6 +480,14 @@ func Run(j *job.Job, s *job.Sink) {
 					return
 				}
 				s.Count("loads", 1)
+				// the identity object that each name denotes: the one of the latest revision
+				// of its module (the bare name), wherever in the module's files it stands
+				objOf := map[string]*yang.Identity{}
+				for _, m := range mods {
+					for _, id := range yang.ToEntry(ms.Modules[m.name]).Identities {
+						objOf[m.name+":"+id.Name] = id
+					}
+				}
 				for _, m := range mods {
 					e := yang.ToEntry(ms.Modules[m.name])
 					libIDs := map[string]*yang.Identity{}
@@ -445,10 +507,28 @@ func Run(j *job.Job, s *job.Sink) {
 								continue
 							}
 							want := desc(id)
+							if late != nil && m != late {
+								// the older revision of the late module is loaded too: its identities
+								// derive from what their base statements name like anybody's
+								w2 := map[string]bool{}
+								for k := range want {
+									w2[k] = true
+									if strings.HasPrefix(k, late.name+":") {
+										w2[k+"@old"] = true
+										if len(late.ids) > 0 && k == late.name+":"+late.ids[0].name {
+											w2[late.name+":ZZOLDONLY@old"] = true
+										}
+									}
+								}
+								want = w2
+							}
 							got := map[string]bool{}
 							var order []string
 							for _, v := range li.Values {
 								key := ownerName(v) + ":" + v.Name
+								if rn := yang.RootNode(v); late != nil && rn != nil && rn.Name == late.name && rn.Current() == "2019-01-01" {
+									key += "@old"
+								}
 								if got[key] {
 									bad("duplicate-value", "%s:%s lists %s twice", m.name, id.name, key)
 								}
@@ -472,6 +552,9 @@ func Run(j *job.Job, s *job.Sink) {
 							}
 							key := m.name + ":" + id.name
 							o := strings.Join(order, " ")
+							if late != nil {
+								continue // (a list with the older revision's identities in it is not compared with the others)
+							}
 							if prev, seen := orders[key]; seen && prev != o {
 								bad("order-unstable", "%s lists %q in one load and %q in another", key, prev, o)
 							}
@@ -534,6 +617,8 @@ func Run(j *job.Job, s *job.Sink) {
 						}
 						if ownerName(ib) != want.mod.name || ib.Name != want.name {
 							bad("identityref-wrong-base", "leaf r%s%d points at %s:%s, base names %s:%s", m.name, i, ownerName(ib), ib.Name, want.mod.name, want.name)
+						} else if o := objOf[want.mod.module().name+":"+want.name]; o != nil && o != ib {
+							bad("identityref-wrong-object", "leaf r%s%d points at an identity %s:%s that is not the one of the latest revision of that module (defined at %s, the module's is at %s)", m.name, i, ownerName(ib), ib.Name, yang.Source(ib), yang.Source(o))
 						}
 					}
 				}
